@@ -602,6 +602,15 @@ pub fn run(ctx: &mut Ctx) {
         cfg.node_subject = case % 5 == 0;
         cfg.big = false;
         let (_m, e0) = universe(&mut rng, cfg, case);
+        // every 120th case: a deep chain (129..300 levels)
+        let e0 = if case % 120 == 13 {
+            ctx.count("deep_chain_inputs");
+            let adv = gen::adversarial_models();
+            let deep: Vec<&(String, gen::M)> = adv.iter().filter(|(l, _)| l.starts_with("deep-chain")).collect();
+            gen::build(&deep[(case / 120) as usize % deep.len()].1, gen::Route::Plain, &mut rng)
+        } else {
+            e0
+        };
         let key = fresh_key(&mut rng);
         let e = if rng.chance(1, 2) { gen::obscure_random(&e0, &mut rng, 2, &key) } else { e0 };
         let t = tree_of(&e);
@@ -609,6 +618,34 @@ pub fn run(ctx: &mut Ctx) {
             ctx.nontrivial(t.shape_hash());
         }
         kind_hist(ctx, &t, "");
+        // two equivalent forms with different structure (one occurrence elided / another one) must not
+        // share a structural digest
+        if !t.has_obscured() && t.count() > 2 {
+            let flat = t.flatten();
+            let mk = |path: &crate::pos::Path| -> Option<Envelope> {
+                let mut t2 = t.clone();
+                {
+                    let mut cur = &mut t2;
+                    for e2 in path.iter() {
+                        let idx = cur.edges().iter().position(|x| x == e2)?;
+                        cur = &mut cur.children[idx];
+                    }
+                    *cur = T { kind: Kind::Elided, digest: cur.digest, leaf: None, kv: None, children: vec![] };
+                }
+                Envelope::try_from_cbor_data(gen::tree_bytes(&t2)).ok()
+            };
+            let p1 = &flat[rng.range(1, flat.len() - 1)].0;
+            let p2 = &flat[rng.range(1, flat.len() - 1)].0;
+            if p1 != p2 && !p1.starts_with(p2) && !p2.starts_with(p1) {
+                if let (Some(a), Some(b)) = (mk(p1), mk(p2)) {
+                    ctx.eval();
+                    ctx.count("structural_digest_of_position_variants");
+                    if a.structural_digest() == b.structural_digest() || a.structural_digest() == e.structural_digest() {
+                        ctx.violation("structural-digest-collision", "two equivalent envelopes whose walks differ (different positions elided) have the same structural digest", J::obj(vec![("a", jhex(&a)), ("b", jhex(&b))]));
+                    }
+                }
+            }
+        }
         check_walk(ctx, &e);
         check_counts_and_digests(ctx, &e, &t);
         check_lookups(ctx, &e, &t, &mut rng);
